@@ -304,6 +304,9 @@ func TestVerifC07(t *testing.T) {
 
 	var events []map[string]any
 	for ri, ops := range runs {
+		if res.Counters["mismatches_total"] >= 20 {
+			break
+		}
 		seeds := nSeeds
 		if ri >= nTLC {
 			seeds = 1
